@@ -88,6 +88,16 @@ def step (st : St) (j : Json) : Except String (St × Json × List Fired) := do
     if !a.isEmpty then
       fired := fired ++ [{ name := "member_public_key_lost_or_changed", detail := Json.arr a }]
   | _ => pure ()
+  -- every position the queue header counts (head ≤ i < tail) holds a nonce pair: a counted but empty position makes the
+  -- member look supplied (eligible for committees and for the signing reward) while nothing can be dequeued for it
+  match (out.getObjVal? "members") with
+  | .ok (.arr ms) =>
+    let holes := (ms.toList.zipIdx.filter fun (m, _) => match m.getObjVal? "q" with
+      | .ok (.arr q) => q.any fun t => match t with | .num n => n.mantissa < 0 | _ => false
+      | _ => false).map (·.2 + 1)
+    if !holes.isEmpty then
+      fired := fired ++ [{ name := "queue_header_counts_a_missing_nonce", detail := jl (holes.map jn) }]
+  | _ => pure ()
   let (s', e) ← match op with
     | "submitDE" => do pure (enqueue s (← jnat j "member") (← jnat j "k"))
     | "resetDE" => do pure (resetDE s (← jnat j "member"), Err.ok)
